@@ -47,9 +47,25 @@ var traitKinds = map[string]traitKind{
 			"func (c *Mark) UnmarshalJSON(b []byte) error {\n\tvar s string\n\tif err := json.Unmarshal(b, &s); err != nil {\n\t\treturn err\n\t}\n\t*c = Mark(s)\n\treturn nil\n}\n"},
 }
 
+// same-spelled trait types for the one-process sessions of C14: `Pa` / `Pb` declared in different
+// packages once WITHOUT and once WITH their own unmarshalers.
+func init() {
+	for _, n := range []string{"a", "b"} {
+		tn := "P" + n
+		lit := func(i int) string { return fmt.Sprintf("%s(%q)", tn, fmt.Sprintf("p%d", i)) }
+		traitKinds["p"+n+"0"] = traitKind{model: "named", lit: lit, uniq: true, decl: "type " + tn + " string\n"}
+		traitKinds["p"+n+"1"] = traitKind{model: "named", lit: lit, uniq: true, self: true, imp: "encoding/json",
+			decl: "type " + tn + " string\n\nfunc (c *" + tn + ") UnmarshalText(b []byte) error { *c = " + tn + "(b); return nil }\n\n" +
+				"func (c *" + tn + ") UnmarshalJSON(b []byte) error {\n\tvar s string\n\tif err := json.Unmarshal(b, &s); err != nil {\n\t\treturn err\n\t}\n\t*c = " + tn + "(s)\n\treturn nil\n}\n"}
+	}
+}
+
 var traitKindNames = func() []string {
 	r := []string{}
 	for k := range traitKinds {
+		if len(k) == 3 && k[0] == 'p' && (k[2] == '0' || k[2] == '1') {
+			continue // session kinds are not drawn at random
+		}
 		r = append(r, k)
 	}
 	sort.Strings(r)
@@ -151,7 +167,7 @@ func parseGenum(ws []string) (*genumCase, error) {
 		return nil, fmt.Errorf("bad underlying type")
 	}
 	switch c.shape {
-	case "plain", "dup", "duptraits", "two", "dup2", "alias":
+	case "plain", "dup", "duptraits", "two", "dup2", "alias", "collide":
 	default:
 		return nil, fmt.Errorf("bad shape")
 	}
@@ -265,6 +281,16 @@ func (c *genumCase) source(pkg string) string {
 				}
 			}
 			fmt.Fprintf(&b, "\t// Deprecated: use the other name.\n\t%s = %s\n", strings.Join(names, ", "), strings.Join(vals, ", "))
+		}
+		if c.shape == "collide" && ti == 0 {
+			// a further value whose name differs from AV1 only by case
+			names := []string{"Av1"}
+			vals := []string{fmt.Sprintf("%s(%d)", tn, c.n)}
+			for _, t := range c.traits {
+				names = append(names, "_")
+				vals = append(vals, traitKinds[t.kind].lit(c.n))
+			}
+			fmt.Fprintf(&b, "\t%s = %s\n", strings.Join(names, ", "), strings.Join(vals, ", "))
 		}
 		if c.shape == "alias" && ti == 0 {
 			// plain aliases without a trait row of their own: `AAlias<i>` sorts before `AV<i>` and so
@@ -549,6 +575,32 @@ var gsortTypes = map[string]struct{ goType, imp, decl string }{
 	"rank":   {goType: "Rank", decl: "type Rank int\n\nfunc (r Rank) String() string { return [...]string{\"a\", \"b\", \"c\"}[r%3] }\n"},
 }
 
+// orderedBasics: the basic kinds Go orders with `<`.
+var orderedBasics = []string{"int", "int8", "int16", "int32", "int64", "uint", "uint8", "uint16", "uint32", "uint64", "float32", "float64", "string"}
+
+type gsortTypeInfo struct{ goType, imp, decl string }
+
+// gsortType: the fixed vocabulary plus `n<basic>`: a local named type over that basic kind
+// (incl. `nbool`) with three accessors of different result types: String() string, Rank() int,
+// IsSet() bool.
+func gsortType(t string) (gsortTypeInfo, bool) {
+	if x, ok := gsortTypes[t]; ok {
+		return gsortTypeInfo{x.goType, x.imp, x.decl}, true
+	}
+	if strings.HasPrefix(t, "n") {
+		b := t[1:]
+		ok := b == "bool"
+		for _, o := range orderedBasics {
+			ok = ok || o == b
+		}
+		if ok {
+			n := "N" + b
+			return gsortTypeInfo{goType: n, decl: fmt.Sprintf("type %[1]s %[2]s\n\nfunc (v %[1]s) String() string { return \"%[1]s\" }\nfunc (v %[1]s) Rank() int       { return 0 }\nfunc (v %[1]s) IsSet() bool     { var z %[1]s; return v != z }\n", n, b)}, true
+		}
+	}
+	return gsortTypeInfo{}, false
+}
+
 type gsortCase struct {
 	fields []gsortField
 	two    bool
@@ -584,7 +636,7 @@ func parseGsort(ws []string) (*gsortCase, error) {
 			if len(p) != 3 {
 				return nil, fmt.Errorf("bad field")
 			}
-			if _, ok := gsortTypes[p[1]]; !ok {
+			if _, ok := gsortType(p[1]); !ok {
 				return nil, fmt.Errorf("bad field type")
 			}
 			g := gsortField{name: p[0], typ: p[1]}
@@ -637,7 +689,7 @@ func (c *gsortCase) source(pkg string) string {
 	imps := map[string]bool{}
 	decls := map[string]bool{}
 	for _, f := range c.fields {
-		t := gsortTypes[f.typ]
+		t, _ := gsortType(f.typ)
 		if t.imp != "" {
 			imps[t.imp] = true
 		}
@@ -645,10 +697,20 @@ func (c *gsortCase) source(pkg string) string {
 			decls[t.decl] = true
 		}
 	}
+	il := []string{}
 	for i := range imps {
+		il = append(il, i)
+	}
+	sort.Strings(il)
+	for _, i := range il {
 		fmt.Fprintf(&b, "import %q\n\n", i)
 	}
+	dl := []string{}
 	for d := range decls {
+		dl = append(dl, d)
+	}
+	sort.Strings(dl)
+	for _, d := range dl {
 		b.WriteString(d + "\n")
 	}
 	for ti, tn := range c.allTypeNames() {
@@ -667,7 +729,8 @@ func (c *gsortCase) source(pkg string) string {
 				}
 				tag = " `" + strings.Join(parts, " ") + "`"
 			}
-			fmt.Fprintf(&b, "\t%s %s%s\n", f.name, gsortTypes[f.typ].goType, tag)
+			gt, _ := gsortType(f.typ)
+			fmt.Fprintf(&b, "\t%s %s%s\n", f.name, gt.goType, tag)
 		}
 		b.WriteString("}\n\n")
 	}
